@@ -53,7 +53,7 @@ class Session:
 
     def addr(self):
         if self.server is None or not self.server.is_alive():
-            from pyworkers.remote_server import spawn_server
+            from common import spawn_server
             self.write_conf(None)
             self.server = spawn_server(('127.0.0.1', 0))
         return self.server.addr
@@ -175,7 +175,7 @@ def run_case(sess, prog, target='r', k=None, mode=None, items=0, wait_timeout=6,
             cons = threading.Thread(target=lambda: got.extend(w.results_iter()), daemon=True)
             cons.start()
             time.sleep(0.05)
-        if mode == 'terminate':
+        if mode == 'terminate' or (mode or '').startswith('defer'):
             if persistent:
                 w.close()       # the release marker follows the items, so that landing points after the loop are reachable
             # wait until the child sits at the landing point (or is gone), then call the real terminate()
@@ -192,7 +192,10 @@ def run_case(sess, prog, target='r', k=None, mode=None, items=0, wait_timeout=6,
                 time.sleep(0.002)
             if hit:
                 res['alive_state'] = repr(w.user_state)      # the child is held at the landing point: still alive
-                st, r = watchdog(lambda: w.terminate(3), 20)
+                # (remote kind: the server waits remote_timeout for a graceful end before it kills the backend; the
+                #  deferred mode holds the control thread back for up to 0.6 s, so give it the full timeout)
+                tkw = {'remote_timeout': 3} if kind == 'remote' else {}
+                st, r = watchdog(lambda: w.terminate(3, **tkw), 20)
                 res['term_ret'] = r if st == 'ok' else (st if st == 'hang' else f'exc:{type(r).__name__}:{r}')
             else:
                 res['notes'].append('landing-point-not-reached')
@@ -255,7 +258,7 @@ def _read_trace(kind, tracer, log):
 
 def model_line(prog, target, items, k, mode, persistent, target_none=False, assigns=False):
     inputs = ('i' * items + 'r') if persistent else '-'
-    a = {'raise': 'w', 'terminate': 'c', 'kill': 'k', None: 'w'}[mode]
+    a = 'D' + mode.split(':')[1] if (mode or '').startswith('defer') else {'raise': 'w', 'terminate': 'c', 'kill': 'k', None: 'w'}[mode]
     if mode == 'terminate' and KINDS[prog][2] == 'thread':
         a = 'w'        # ThreadWorker.terminate raises directly in the target thread: no control thread involved
     return f'run {prog} {target} {int(target_none)} {inputs} {"-" if k is None else k} {a}' + (' assign' if assigns else '')
@@ -267,7 +270,7 @@ def parse_model(line):
         k, _, v = part.partition('=')
         d[k] = v
     he, _, er = d.get('obs', '/').partition('/')
-    return {'out': d.get('out'), 'ustate': d.get('ustate'), 'has_error': {'True': True, 'False': False, 'None': None}.get(he), 'error': er,
+    return {'out': d.get('out'), 'ustate': d.get('ustate'), 'raised_at': d.get('raisedAt'), 'has_error': {'True': True, 'False': False, 'None': None}.get(he), 'error': er,
             'trace': [int(x) for x in d.get('trace', '').split(',') if x],
             'results': [x for x in d.get('results', '').split(',') if x]}
 
